@@ -535,7 +535,6 @@ class FundamentalUnits(object):
         return self._build(other*self.exps)
 
     def __eq__(self, other):
-        print(self.exps, other.exps)
         return (self.exps == other.exps).all()
 
     def __ne__(self, other):
@@ -550,7 +549,6 @@ class FundamentalUnits(object):
     def __str__(self):
         up = []
         dn = []
-        print('here')
         exps = self.exps
         for i, unit in enumerate(self._primitive_units):
             if exps[i] == 1:
